@@ -47,6 +47,33 @@ func isBarrier(fn *ssa.Function) bool {
 		if rb.deferInstr.Block() == fn.Blocks[0] {
 			return true
 		}
+		// installed after some guard code: it is a barrier for the function when every call of a module function
+		// (or through an interface) happens after it
+		all := true
+		db := rb.deferInstr.Block()
+		for _, ci := range callsIn(fn) {
+			in := ci.(ssa.Instruction)
+			if in == rb.deferInstr {
+				continue
+			}
+			if _, isDefer := in.(*ssa.Defer); isDefer {
+				continue // runs at the end, under the barrier if that was deferred later... or not at all protected; deferred calls are judged by ERR-4
+			}
+			callee := ci.Common().StaticCallee()
+			if callee != nil && !fnInModule(callee) {
+				continue
+			}
+			if _, isBuiltin := ci.Common().Value.(*ssa.Builtin); isBuiltin {
+				continue
+			}
+			after := (in.Block() == db && instrIndex(in) > instrIndex(rb.deferInstr)) || (in.Block() != db && db.Dominates(in.Block()))
+			if !after {
+				all = false
+			}
+		}
+		if all {
+			return true
+		}
 	}
 	return false
 }
@@ -111,7 +138,11 @@ func ruleLDR6(c *Ctx) {
 			if generatedExempt(f) {
 				continue
 			}
+			live := liveBlocks(f)
 			for _, b := range f.Blocks {
+				if !live[b] {
+					continue // behind a condition that is a constant (if false {…}, a debug switch that is a const)
+				}
 				for _, in := range b.Instrs {
 					if _, ok := in.(*ssa.Panic); ok {
 						bad = append(bad, fnName(f)+" at "+p.InstrPos(in))
@@ -1216,4 +1247,40 @@ func ruleLDR15(c *Ctx) {
 	}
 	sort.Strings(bad)
 	c.Check(len(bad) == 0, "LoadKnowledgeBaseFromReader / reaches no recursive function", p.Pos(entry.Pos()), fmt.Sprintf("%d module functions reachable, none on a call cycle", len(reach)), "recursive functions are reachable while a stream is loaded ("+strings.Join(bad, ", ")+"): on a well-formed stream whose ids close a cycle the recursion never ends and the stack overflow aborts the process")
+}
+
+
+// liveBlocks: blocks reachable from the entry when a branch on a constant condition follows only the edge that is taken.
+func liveBlocks(f *ssa.Function) map[*ssa.BasicBlock]bool {
+	live := map[*ssa.BasicBlock]bool{}
+	if len(f.Blocks) == 0 {
+		return live
+	}
+	stack := []*ssa.BasicBlock{f.Blocks[0]}
+	// recover block of a function with defers
+	if f.Recover != nil {
+		stack = append(stack, f.Recover)
+	}
+	for len(stack) > 0 {
+		b := stack[len(stack)-1]
+		stack = stack[:len(stack)-1]
+		if live[b] {
+			continue
+		}
+		live[b] = true
+		if len(b.Instrs) > 0 {
+			if iff, ok := b.Instrs[len(b.Instrs)-1].(*ssa.If); ok {
+				if k, isK := constBool(iff.Cond); isK {
+					if k {
+						stack = append(stack, b.Succs[0])
+					} else {
+						stack = append(stack, b.Succs[1])
+					}
+					continue
+				}
+			}
+		}
+		stack = append(stack, b.Succs...)
+	}
+	return live
 }
